@@ -2,7 +2,7 @@
    [keep_import] / [external_modules] model import_filter.py, importee_module_calculator.py and the
    module filter of graph_generator.py; exclusion patterns on dotted names are the oracle [sc_ext_excl]. *)
 From Coq Require Import List Bool NArith.
-From PTA Require Import Names Graph Search Scan NamesProofs SearchProofs GraphProofs ScanProofs.
+From PTA Require Import Names Graph Search Scan NamesProofs SearchProofs GraphProofs ScanProofs RerootProofs.
 Import ListNotations.
 
 Section C10.
@@ -55,6 +55,17 @@ Print Assumptions C10_pattern_removes_import.
 Print Assumptions C10_pattern_removes_module.
 Print Assumptions C10_internal_import_kept.
 Print Assumptions C10_added_modules_external.
+
+(* A FILE exclusion pattern is about paths: it reaches the architecture through the walk of the directory tree and through
+   nothing else.  If it excludes no file or directory of the tree (the walk is the same as with the other predicate), the whole
+   architecture is the same - in particular no external module, ancestor of one, or import to one is touched by it, however
+   the pattern's text compares with their dotted names. *)
+Theorem C10_file_patterns_act_on_paths_only :
+  forall (comp : Type) (ceqb : comp -> comp -> bool) (c : @scan_cfg comp) (e : list comp -> bool),
+  walk_from ceqb e (sc_root c) (sc_tree c) (sc_mp c) = walk_from ceqb (sc_excl c) (sc_root c) (sc_tree c) (sc_mp c) ->
+  scan ceqb (with_excl c e) = scan ceqb c.
+Proof. exact @scan_excl_only_through_walk. Qed.
+Print Assumptions C10_file_patterns_act_on_paths_only.
 
 (* non-vacuity: proj/m.py imports logging.handlers (9.10), os (11) and proj.n; pattern excludes 'logging' *)
 Open Scope N_scope.
